@@ -57,8 +57,15 @@ func (s *sys) mkRec(r *rand.Rand, k, kind string, stale bool, bigVals bool) agg.
 		rec.Sp, rec.Sns, rec.Ftype = "pod-a", "ns-a", 3
 	case "src":
 		rec.Sp, rec.Sns = "pod-a", "ns-a"
+		if !s.global {
+			rec.Egress = r.Intn(2) // none / allow
+		}
 	case "dst":
 		rec.Dp, rec.Dns = "pod-b", "ns-b"
+		if !s.global {
+			rec.Ingress = r.Intn(2)
+			rec.Prio = []int{0, 0, 1, 50000, -1, -2147483648, 2147483647}[r.Intn(7)]
+		}
 	case "deny": // inter-node, denied at egress: ready at once
 		rec.Sp, rec.Sns, rec.Egress = "pod-a", "ns-a", 2+r.Intn(2)
 	case "reject": // inter-node, rejected at ingress
